@@ -75,3 +75,29 @@ Fixpoint src_len (e : lenexpr) (sd : srcdesc) : Z :=
   | LLenTimesItem => sd_length sd * sd_isz sd
   | LIf c a b => if scond_holds c sd then src_len a sd else src_len b sd
   end.
+
+(* ---------------------------------------------------------------- minibuffer.h: the bodies of mb_item,
+   mb_slice, mb_ass_item, mb_ass_slice as statement lists (regenerated into C19/Gen.v by
+   tools/props/c19_regen.py; semantics in C19/MbSem.v) *)
+Inductive mvar := Vidx | Vleft | Vright | Vsize | Vcount.
+Inductive mexpr :=
+| EV (v : mvar)             (* a parameter or local of type Py_ssize_t *)
+| ESelfSize                 (* self->mb_size *)
+| ESrcLen                   (* src_view.len *)
+| EConst (z : Z)
+| ESub (a b : mexpr).       (* a - b *)
+Inductive mtest :=
+| TLt (a b : mexpr) | TGt (a b : mexpr) | TGe (a b : mexpr) | TLe (a b : mexpr)
+| TEq (a b : mexpr) | TNe (a b : mexpr)
+| TOr (s t : mtest) | TAnd (s t : mtest).
+Inductive mexn := XIndex | XType | XValue.
+Inductive copyfn := Memcpy | Memmove.
+Inductive mstmt :=
+| SAssign (v : mvar) (e : mexpr)                (* [Py_ssize_t] v = e; *)
+| SIfAssign (t : mtest) (v : mvar) (e : mexpr)  (* if (t) v = e; *)
+| SIfRaise (t : mtest) (x : mexn)               (* if (t) { [PyBuffer_Release(&src_view);] PyErr_SetString(PyExc_x, ...); return NULL / -1; } *)
+| SFetch                                        (* if (_fetch_as_buffer(other, &src_view, 0) < 0) return -1; *)
+| SRetBytes (pos len : mexpr)                   (* return PyBytes_FromStringAndSize(self->mb_data + pos, len); *)
+| SStoreByte (pos : mexpr)                      (* if (PyBytes_Check(other) && PyBytes_GET_SIZE(other) == 1) { self->mb_data[pos] =
+                                                   PyBytes_AS_STRING(other)[0]; return 0; } else { TypeError; return -1; } *)
+| SCopy (f : copyfn) (pos cnt : mexpr).         (* f(self->mb_data + pos, src_view.buf, cnt); PyBuffer_Release(&src_view); return 0; *)
